@@ -1,8 +1,10 @@
 /-
-  C18, proof side, ninth part: write-then-read for EVERYTHING the writer emits, in total form.
-
+  C18, proof side, ninth part: write-then-read in total form for the writer's output on flat designs:
   `.subckt` / `.gate` / `.names` / `.latch` children, IN / OUT / INOUT top ports, `.clock`, `.conn`
   lines for port pins on differently named nets, black-box block (either value of the options).
+  The conclusion compares instance kinds and order, `.cname/.attr/.param` data, the pins on every net
+  bit and the top model's port list (truth tables: see Props/C18Any.lean; not compared: `unconn`,
+  names without `.cname`, ports of non-top definitions, netlist name / top / comments / `.clock`).
 -/
 import Spydr.Eblif.FullMain
 
@@ -83,32 +85,39 @@ theorem written_joins_are_net (n : BNet) (t : String) (hw : WellNamed n) (ht : o
     (∃ k', (x, k') ∈ JF n t ∧ aliasOf (connKeys n t (n.findDef t)) k' = k) ↔ OnNet n x k :=
   joinsF_iff_onNet n t hw ht hn x k
 
-/-! ### non-vacuity: a netlist with all four child kinds, an INOUT port, `.clock`, and an output
-    port whose pin sits on a differently named net (one `.conn` line) -/
+/-! ### non-vacuity: a netlist with all four child kinds (`.subckt`, `.gate`, `.names`, `.latch`), a
+    two-bit bus port and a two-bit instance port, an INOUT port, `.clock`, and an output port whose
+    pin sits on a differently named net (one `.conn` line), two black-box blocks -/
 
 def exFull : BNet :=
   { name := some "t", top := some "t", comments := [],
-    defs := [{ name := "t", ports := [{ name := "a", dir := Dir.inp, width := 1 }, { name := "io", dir := Dir.inout, width := 1 },
+    defs := [{ name := "t", ports := [{ name := "a", dir := Dir.inp, width := 1 }, { name := "b", dir := Dir.inp, width := 2 },
+                                      { name := "io", dir := Dir.inout, width := 1 },
                                       { name := "y", dir := Dir.out, width := 1 }, { name := "q", dir := Dir.out, width := 1 }],
                declared := true, clock := some ["clk"] },
              { name := "B", ports := [{ name := "I", dir := Dir.undef, width := 1 }, { name := "O", dir := Dir.undef, width := 1 }] },
+             { name := "G", ports := [{ name := "X", dir := Dir.undef, width := 2 }, { name := "Y", dir := Dir.undef, width := 1 }] },
              { name := "logic-gate_2", ports := [{ name := "in_0", dir := Dir.inp, width := 1 }, { name := "in_1", dir := Dir.inp, width := 1 },
                                                  { name := "out", dir := Dir.out, width := 1 }] },
              { name := "generic-latch", ports := [{ name := "input", dir := Dir.inp, width := 1 }, { name := "output", dir := Dir.out, width := 1 },
                                                   { name := "type", dir := Dir.inp, width := 1 }, { name := "control", dir := Dir.inp, width := 1 }] }],
     insts := [{ parent := "t", name := "u1", model := "B", typ := "EBLIF.subckt", cname := some "u1",
                 attrs := [("k", "v")], pins := [("I", 0), ("O", 0)] },
+              { parent := "t", name := "g2", model := "G", typ := "EBLIF.gate", cname := some "g2",
+                params := [("p", "1")], pins := [("X", 0), ("X", 1), ("Y", 0)] },
               { parent := "t", name := "g1", model := "logic-gate_2", typ := "EBLIF.names", covers := some ["11 1"],
                 pins := [("in_0", 0), ("in_1", 0), ("out", 0)] },
               { parent := "t", name := "l1", model := "generic-latch", typ := "EBLIF.latch",
                 pins := [("input", 0), ("output", 0), ("type", 0), ("control", 0)] }],
-    cables := [(("t", "a"), [[Pin.top "t" "a" 0, Pin.inst 0 "I" 0, Pin.inst 1 "in_0" 0]]),
-               (("t", "io"), [[Pin.top "t" "io" 0, Pin.inst 1 "in_1" 0]]),
-               (("t", "w"), [[Pin.inst 0 "O" 0, Pin.inst 2 "input" 0]]),
-               (("t", "n1"), [[Pin.inst 1 "out" 0, Pin.top "t" "y" 0]]),
-               (("t", "q"), [[Pin.inst 2 "output" 0, Pin.top "t" "q" 0]]),
-               (("t", "re"), [[Pin.inst 2 "type" 0]]),
-               (("t", "clk"), [[Pin.inst 2 "control" 0]])] }
+    cables := [(("t", "a"), [[Pin.top "t" "a" 0, Pin.inst 0 "I" 0, Pin.inst 2 "in_0" 0]]),
+               (("t", "b"), [[Pin.top "t" "b" 0, Pin.inst 1 "X" 0], [Pin.top "t" "b" 1, Pin.inst 1 "X" 1]]),
+               (("t", "io"), [[Pin.top "t" "io" 0, Pin.inst 2 "in_1" 0]]),
+               (("t", "w"), [[Pin.inst 0 "O" 0, Pin.inst 3 "input" 0]]),
+               (("t", "gy"), [[Pin.inst 1 "Y" 0]]),
+               (("t", "n1"), [[Pin.inst 2 "out" 0, Pin.top "t" "y" 0]]),
+               (("t", "q"), [[Pin.inst 3 "output" 0, Pin.top "t" "q" 0]]),
+               (("t", "re"), [[Pin.inst 3 "type" 0]]),
+               (("t", "clk"), [[Pin.inst 3 "control" 0]])] }
 
 set_option maxRecDepth 100000 in
 set_option maxHeartbeats 4000000 in
